@@ -107,7 +107,8 @@ impl Agg {
         self.sim_nanos += r.sim_nanos as i128;
         self.steps += r.steps;
         let variant = job.params.get("variant").and_then(|v| v.as_str()).unwrap_or("-");
-        self.hashes.insert(format!("{:020}:{}", r.seed, variant), r.log_hash);
+        let uni = job.params.get("universe").and_then(|v| v.as_u64()).unwrap_or(0);
+        self.hashes.insert(format!("{:020}:{}:u{}", r.seed, variant, uni), r.log_hash);
         if let Verdict::Harness(m) = &r.verdict {
             if self.harness_errors.len() < 20 {
                 self.harness_errors.push(format!("run {} seed {}: {}", r.idx, r.seed, m));
